@@ -18,7 +18,8 @@ func selftest(argv []string) int {
 		os.Stdout = null
 	}
 	rc := cmdCheck([]string{"-property", "selftestfail", "-no-evidence"})
-	rc2 := cmdCheck([]string{"-property", "selftestrace", "-no-evidence"})
+	rc2 := cmdCheck([]string{"-property", "selftestrace", "-no-evidence", "-only", "rlock"})
+	rc3 := cmdCheck([]string{"-property", "selftestrace", "-no-evidence", "-only", "maprace"})
 	os.Stdout = saved
 	if rc != 1 {
 		fmt.Println("SELFTEST FAILED: a false assertion was not reported as a violation")
@@ -26,6 +27,10 @@ func selftest(argv []string) int {
 	}
 	if rc2 != 1 {
 		fmt.Println("SELFTEST FAILED: a lost update under a read lock was not found by the scheduler model")
+		return 1
+	}
+	if rc3 != 1 {
+		fmt.Println("SELFTEST FAILED: a map written by one goroutine while another ranges over it was not reported")
 		return 1
 	}
 	fmt.Println("selftest ok (corpus passes; the must-fail case was found and reproduced natively)")
